@@ -9,10 +9,13 @@
 (* (several transactions per block, so that claim - proof - claim - proof  *)
 (* inside ONE block is explored).  A transaction that fails is generated   *)
 (* and replayed from every reachable state but not continued (`dead`).     *)
+(* `disp` is the off-chain dimension: whether the node has served          *)
+(* dispatches (sessions cached) - see the variable's comment.              *)
 (***************************************************************************)
 EXTENDS ChainClaims, IOUtils, Json
 
-CONSTANTS MaxTx,      \* transactions per behaviour
+CONSTANTS DispModes,  \* subset of BOOLEAN: does the node serve off-chain dispatches (see `disp`)
+          MaxTx,      \* transactions per behaviour
           MaxH,       \* last block height
           Level       \* size of the choice sets: 0 quick, 1 thorough, 2 "deep": only the
                       \* state-changing shapes, for long sequences (overwrite, expiry, re-claim),
@@ -30,10 +33,14 @@ VARIABLES s,       \* live application state of the executing block (slim)
           paid,    \* ghost: claim keys for which a reward was paid
           repaid,  \* ghost: 0 none, 1 a key was paid again for a claim re-submitted at the known
                    \* boundary height, 2 a key was paid again in any other way
+          disp,    \* the node serves a dispatch for every (application, chain) after every commit, so
+                   \* the session of every height is in its node-local session cache when a claim or
+                   \* proof arrives.  Off-chain activity: NO operator of ChainClaims reads it - the
+                   \* verdicts must be the same either way; the replay runs the real node both ways
           ntx, dead, hist
 
-vars == <<s, h, snaps, paid, repaid, ntx, dead, hist>>
-view == <<s, h, snaps, paid, repaid, ntx, dead>>
+vars == <<s, h, snaps, paid, repaid, disp, ntx, dead, hist>>
+view == <<s, h, snaps, paid, repaid, disp, ntx, dead>>
 
 Slim(x) == [bal |-> x.bal, supply |-> x.supply, nopk |-> x.nopk, badCoins |-> x.badCoins, val |-> x.val, app |-> x.app,
             ixChain |-> x.ixChain, prevProposer |-> x.prevProposer, claims |-> SeqToSet(x.claims)]
@@ -50,6 +57,7 @@ Init ==
     /\ s = ClaimsBeginBlock(Slim(Init0.st), c, h0 + 1, Init0.proposer)
     /\ h = h0 + 1
     /\ snaps = <<[from |-> 0, st |-> Sub(Init0.st)]>>
+    /\ disp \in DispModes
     /\ paid = {} /\ repaid = 0 /\ ntx = 0 /\ dead = FALSE /\ hist = <<>>
 
 -----------------------------------------------------------------------------
@@ -138,9 +146,9 @@ Deliver(tx) ==
                       ELSE repaid
        /\ ntx' = ntx + 1
        /\ dead' = ~(ok \/ mcls = "replay")
-       /\ hist' = Append(hist, [ev |-> "tx", h |-> h, tx |-> tx, class |-> cls, mclass |-> mcls, ok |-> ok,
+       /\ hist' = Append(hist, [ev |-> "tx", h |-> h, disp |-> disp, tx |-> tx, class |-> cls, mclass |-> mcls, ok |-> ok,
                                 repay |-> (pay /\ k \in paid), st |-> Focus(post)])
-       /\ UNCHANGED <<h, snaps>>
+       /\ UNCHANGED <<h, snaps, disp>>
 
 Fresh ==
     \/ \E sh \in ClaimShapes, S \in Sessions : Deliver(MkClaim(sh, S, ntx + 1))
@@ -154,8 +162,8 @@ NextBlock ==
     /\ s' = sb
     /\ h' = h + 1
     /\ snaps' = IF Sub(s) # snaps[Len(snaps)].st THEN Append(snaps, [from |-> h, st |-> Sub(s)]) ELSE snaps
-    /\ hist' = Append(hist, [ev |-> "block", h |-> h + 1, st |-> Focus(sb)])
-    /\ UNCHANGED <<paid, repaid, ntx, dead>>
+    /\ hist' = Append(hist, [ev |-> "block", h |-> h + 1, disp |-> disp, st |-> Focus(sb)])
+    /\ UNCHANGED <<paid, repaid, disp, ntx, dead>>
 
 Next == Fresh \/ NextBlock
 NextCover == Next /\ PrintT(ToJson(hist'))
